@@ -318,6 +318,9 @@ impl<'a> Tr<'a> {
                         _ => return self.unsupported(e.span(), "integer literal"),
                     };
                     let v: u128 = i.base10_parse().map_err(|_| Error(format!("{}:{}: bad integer literal", self.label, line_of(e.span()))))?;
+                    if let (Some(w), 0) = (self.bits_ctx, bits) {
+                        return Ok((L::atom(format!("{v}#{w}")), Ty::Bits(w)));
+                    }
                     Ok((L::atom(v.to_string()), Ty::Int(bits, i.suffix().to_string())))
                 }
                 Lit::Bool(b) => Ok((L::atom(if b.value { "true" } else { "false" }), Ty::Bool)),
@@ -343,7 +346,10 @@ impl<'a> Tr<'a> {
                         }
                         Ok((L::atom(lean_ident(&name)), v.ty.clone()))
                     }
-                    None => self.unsupported(e.span(), "name that is neither a local nor an argument"),
+                    None => match self.find_prim("", &name) {
+                        Some(pr) if pr.args.is_none() => self.apply_prim(&pr, vec![], e.span()),
+                        _ => self.unsupported(e.span(), "name that is neither a local nor an argument"),
+                    },
                 }
             }
             Expr::Path(p) if p.qself.is_none() && p.path.segments.len() == 2 => {
@@ -420,6 +426,9 @@ impl<'a> Tr<'a> {
             Expr::Unary(u) => match u.op {
                 UnOp::Not(_) => {
                     let (l, t) = self.expr(&u.expr, env)?;
+                    if let Ty::Bits(_) = t {
+                        return Ok((L::comp(format!("~~~{}", l.arg())), t));
+                    }
                     if t != Ty::Bool {
                         return self.unsupported(e.span(), "`!` on a non-bool");
                     }
@@ -431,6 +440,10 @@ impl<'a> Tr<'a> {
                         if segs.is_empty() {
                             if let Some(v) = self.lookup(env, &b) {
                                 if matches!(v.kind, Kind::MutBorrow(_) | Kind::ElemMut) {
+                                    return Ok((L::atom(lean_ident(&b)), v.ty.clone()));
+                                }
+                                // `*x` for a shared reference to a scalar: the value
+                                if matches!(v.kind, Kind::Plain) && matches!(v.ty, Ty::Int(..) | Ty::Bits(_) | Ty::Bool) {
                                     return Ok((L::atom(lean_ident(&b)), v.ty.clone()));
                                 }
                             }
@@ -456,6 +469,57 @@ impl<'a> Tr<'a> {
                 self.expr(&r.expr, env)
             }
             Expr::Binary(b) => match b.op {
+                BinOp::BitAnd(_) | BinOp::BitOr(_) | BinOp::BitXor(_) => {
+                    // on blocks of bits; an integer literal on the other side is a block too
+                    let (mut l, mut lt) = self.expr(&b.left, env)?;
+                    let saved = self.bits_ctx;
+                    if let Ty::Bits(w) = lt {
+                        self.bits_ctx = Some(w);
+                    }
+                    let r = self.expr(&b.right, env);
+                    self.bits_ctx = saved;
+                    let (r, rt) = r?;
+                    if let (Ty::Int(0, _), Ty::Bits(w)) = (&lt, &rt) {
+                        self.bits_ctx = Some(*w);
+                        let l2 = self.expr(&b.left, env);
+                        self.bits_ctx = saved;
+                        let (l2, lt2) = l2?;
+                        l = l2;
+                        lt = lt2;
+                    }
+                    match (&lt, &rt) {
+                        (Ty::Bits(a), Ty::Bits(c)) if a == c => {}
+                        _ => return self.unsupported(e.span(), "bitwise operation on something that is not a block of bits (--bits):"),
+                    }
+                    let op = match b.op {
+                        BinOp::BitAnd(_) => "&&&",
+                        BinOp::BitOr(_) => "|||",
+                        _ => "^^^",
+                    };
+                    Ok((L::comp(format!("{} {op} {}", l.arg(), r.arg())), lt))
+                }
+                BinOp::Shl(_) | BinOp::Shr(_) => {
+                    let (l, lt) = self.expr(&b.left, env)?;
+                    let saved = self.bits_ctx.take();
+                    let r = self.expr(&b.right, env);
+                    self.bits_ctx = saved;
+                    let (r, rt) = r?;
+                    if !matches!(lt, Ty::Bits(_)) || !matches!(rt, Ty::Int(..)) {
+                        return self.unsupported(e.span(), "shift of something that is not a block of bits (--bits), or by a non-integer:");
+                    }
+                    note!(self, arith, format!("line {}: `{}` (a shift by the width or more panics in debug builds, and is masked in release builds; `BitVec` shifts everything out)", line_of(e.span()), self.src_text(e.span())));
+                    let op = if matches!(b.op, BinOp::Shl(_)) { "<<<" } else { ">>>" };
+                    Ok((L::comp(format!("{} {op} {}", l.arg(), r.arg())), lt))
+                }
+                BinOp::Div(_) => {
+                    let (l, lt) = self.expr(&b.left, env)?;
+                    let (r, rt) = self.expr(&b.right, env)?;
+                    if !matches!((&lt, &rt), (Ty::Int(..), Ty::Int(..))) {
+                        return self.unsupported(e.span(), "arithmetic on non-integers");
+                    }
+                    note!(self, arith, format!("line {}: `{}` (division by zero panics in Rust; here it is 0)", line_of(e.span()), self.src_text(e.span())));
+                    Ok((L::comp(format!("{} / {}", l.arg(), r.arg())), if matches!(lt, Ty::Int(0, _)) { rt } else { lt }))
+                }
                 BinOp::Add(_) | BinOp::Sub(_) | BinOp::Rem(_) => {
                     let (l, lt) = self.expr(&b.left, env)?;
                     let (r, rt) = self.expr(&b.right, env)?;
@@ -472,7 +536,7 @@ impl<'a> Tr<'a> {
                     if op == "%" {
                         let nonzero_lit = matches!(&*b.right, Expr::Lit(l) if matches!(&l.lit, Lit::Int(i) if i.base10_parse::<u128>().map(|v| v != 0).unwrap_or(false)));
                         if !nonzero_lit {
-                            return self.unsupported(e.span(), "`%` by something that is not a non-zero literal:");
+                            note!(self, arith, format!("line {}: `{}` (remainder by zero panics in Rust; here it is the dividend)", line_of(e.span()), self.src_text(e.span())));
                         }
                     } else {
                         note!(self, arith, format!("line {}: `{}`", line_of(e.span()), self.src_text(e.span())));
@@ -705,6 +769,12 @@ impl<'a> Tr<'a> {
                     }
                     return Ok((L::comp(format!("{} {}", lean_ident(&segs[0]), args.iter().map(|(l, _)| l.arg()).collect::<Vec<_>>().join(" "))), *ret));
                 }
+            }
+            // a free function translated earlier in this run
+            if let Some(sg) = self.sigs.iter().find(|x| x.ty.is_empty() && x.name == segs[0]).cloned() {
+                let args = self.args_expected(&c.args, &sg.params, env, &format!("`{}`", segs[0]), sp)?;
+                self.use_sig(&sg);
+                return Ok((L::comp(format!("{} {}", sg.lean, args.iter().map(|a| a.arg()).collect::<Vec<_>>().join(" "))), sg.ret.clone()));
             }
             // a tuple-struct constructor given by --prim `::Name(T) -> R`
             if let Some(pr) = self.find_prim("", &segs[0]) {
@@ -1025,6 +1095,18 @@ impl<'a> Tr<'a> {
             (Ty::Vec(_), "len", 0) => Ok((L::comp(format!("vecLen {}", r.arg())), Ty::usize())),
             (Ty::Iter(_), "cloned", 0) | (Ty::Iter(_), "copied", 0) => Ok((r, rt.clone())),
             (Ty::Iter(elem), "collect", 0) => Ok((r, Ty::Vec(elem.clone()))),
+            (Ty::Iter(elem), "zip", 1) => {
+                let (o, ot) = self.expr(&m.args[0], env)?;
+                match ot {
+                    Ty::Iter(oe) => Ok((L::comp(format!("List.zip {} {}", r.arg(), o.arg())), Ty::Iter(Box::new(Ty::Tuple(vec![(**elem).clone(), *oe]))))),
+                    _ => self.unsupported(sp, "argument of `zip` (only another iterator)"),
+                }
+            }
+            (Ty::Iter(elem), "sum", 0) if matches!(**elem, Ty::Int(..)) => {
+                note!(self, arith, format!("line {}: `{}` (the sum is unbounded here)", line_of(sp), self.short_text(sp)));
+                Ok((L::comp(format!("List.sum {}", r.arg())), (**elem).clone()))
+            }
+            (Ty::Bits(_), "count_ones", 0) => Ok((L::comp(format!("(BitVec.cpop {}).toNat", r.arg())), Ty::Int(32, "u32".into()))),
             (Ty::Iter(elem), "chain", 1) => {
                 let (o, ot) = self.expr(&m.args[0], env)?;
                 if !matches!(&ot, Ty::Iter(oe) if assignable(elem, oe)) {
@@ -1058,7 +1140,7 @@ impl<'a> Tr<'a> {
                             _ => return self.unsupported(sp, "second argument of `map_or` (only a one-field enum constructor or a closure)"),
                         }
                     }
-                    c @ Expr::Closure(_) => self.arg_expected(c, &Ty::Fn(vec![inner], Box::new(dt.clone())), env)?.0.s,
+                    c @ Expr::Closure(_) => self.iter_closure(c, &inner, env)?.0,
                     _ => return self.unsupported(sp, "second argument of `map_or` (only a one-field enum constructor or a closure)"),
                 };
                 Ok((L::comp(format!("Option.elim {} {} ({f})", r.arg(), d.arg())), dt))
@@ -1075,7 +1157,23 @@ impl<'a> Tr<'a> {
                     self.use_sig(&s);
                     let what = format!("`{rust}::{name}`");
                     if s.self_mut {
-                        return self.mut_call(m, recv, env, &s.lean.clone(), &s.params, &s.ret, s.has_panic, &what);
+                        let (q, qt) = self.mut_call(m, recv, env, &s.lean.clone(), &s.params, &s.ret, s.has_panic, &what)?;
+                        if let Some((path, elem)) = &s.ret_borrow {
+                            // the callee returned the index of the element it borrows: a checked read, and a borrow for
+                            // whoever binds the value
+                            let base = match self.as_place(recv) {
+                                Some((b, segs)) if segs.is_empty() => b,
+                                _ => return self.unsupported(sp, "call of a function that returns a mutable borrow, on a receiver that is not a variable:"),
+                            };
+                            let vec = PlaceInfo { base, lean_path: path.clone(), ty: Ty::Vec(Box::new(elem.clone())) };
+                            if let Ty::Named { tyvar: true, lean, .. } = elem {
+                                self.inh.insert(lean.clone());
+                            }
+                            let v = format!("optUnwrap (vecGet {} {})", vec.read(), q.s);
+                            self.last_borrow = Some(Borrow { vec, idx: q.s.clone(), value: v.clone() });
+                            return Ok((L::comp(v), elem.clone()));
+                        }
+                        return Ok((q, qt));
                     }
                     if s.has_panic {
                         return self.unsupported(sp, "call of a translated `&self` method that can panic:");
@@ -1177,10 +1275,17 @@ impl<'a> Tr<'a> {
             Expr::Binary(b) => match b.op {
                 BinOp::Lt(_) | BinOp::Le(_) | BinOp::Gt(_) | BinOp::Ge(_) | BinOp::Eq(_) | BinOp::Ne(_) => {
                     let (l, lt) = self.expr(&b.left, env)?;
-                    let (r, rt) = self.expr(&b.right, env)?;
+                    let saved = self.bits_ctx;
+                    if let Ty::Bits(w) = lt {
+                        self.bits_ctx = Some(w);
+                    }
+                    let r = self.expr(&b.right, env);
+                    self.bits_ctx = saved;
+                    let (r, rt) = r?;
                     let ordered = !matches!(b.op, BinOp::Eq(_) | BinOp::Ne(_));
                     match (&lt, &rt) {
                         (Ty::Int(..), Ty::Int(..)) => {}
+                        (Ty::Bits(a), Ty::Bits(c)) if a == c && !ordered => {}
                         (Ty::Bool, Ty::Bool) if !ordered => {}
                         (Ty::Named { .. }, Ty::Named { .. }) if !ordered && lt == rt => self.note_eq(&lt, e.span()),
                         _ => return self.unsupported(e.span(), "comparison (integers; `==`/`!=` also on bools and on named types)"),
